@@ -128,7 +128,7 @@ class CTS_CBC(Mode):
             C.append(self._cipher.enc(x))
         if p>0:
             clast = C.pop()
-            b = self.iterblocks(M[n*self.len:]).ljust(self.len,b'\0')
+            b = M[n*self.len:].ljust(self.len,b'\0')
             x = self.xorstr(b,clast)
             C.append(self._cipher.enc(x))
             C.append(clast[:p])
